@@ -27,9 +27,18 @@ type StoreState struct {
 
 type StoreEvent struct {
 	Seq uint64
-	Op  string // "recv" | "remove"
+	// Op: "recv" (effect applied) | "recv-ret" (the leaf's ReceiveBlob is about
+	// to return; OK = it reports success with the right size) | "remove"
+	Op  string
 	Ref string
 	OK  bool
+}
+
+// LogEvent appends to the mutation log.
+func (st *StoreState) LogEvent(op, ref string, ok bool) {
+	st.mu.Lock()
+	st.Log = append(st.Log, StoreEvent{Seq: simcore.Seq(), Op: op, Ref: ref, OK: ok})
+	st.mu.Unlock()
 }
 
 func NewStoreState(name string) *StoreState {
@@ -188,6 +197,7 @@ func (s *SimStore) ReceiveBlob(ctx context.Context, br blob.Ref, source io.Reade
 	}
 	kind, _ := s.Env.Enter(s.G, s.name(), "ReceiveBlob", true)
 	if kind == FErr {
+		s.St.LogEvent("recv-ret", br.String(), false)
 		return blob.SizedRef{}, injected(s.name(), "ReceiveBlob", kind)
 	}
 	s.St.mu.Lock()
@@ -199,10 +209,13 @@ func (s *SimStore) ReceiveBlob(ctx context.Context, br blob.Ref, source io.Reade
 	simcore.Yield("ss:" + s.name() + ":recv-done")
 	switch kind {
 	case FErrAfter:
+		s.St.LogEvent("recv-ret", br.String(), false)
 		return blob.SizedRef{}, injected(s.name(), "ReceiveBlob", kind)
 	case FWrongSize:
+		s.St.LogEvent("recv-ret", br.String(), false)
 		return blob.SizedRef{Ref: br, Size: uint32(len(all)) + 1}, nil
 	}
+	s.St.LogEvent("recv-ret", br.String(), true)
 	return blob.SizedRef{Ref: br, Size: uint32(len(all))}, nil
 }
 
